@@ -707,6 +707,10 @@ func c03XPathExprs() []string {
 		"1", "-1", "1.5", "'s'", "\"s\"", "''", "1 + 1", "a + 1", "-a", "a * 2", "a div 0", "a mod 0", "1 div 0", "1 and 2", "'a' = 'a'", "1 = 1",
 		// numeric comparisons inside predicates, met with non-numeric data
 		"a[.>1]", "a[.<1]", "a[.>=1]", "a[.=1]", "a[.!=1]", "*[.>1]", "//*[.>1]", ".[a>1]", ".[b>1]", ".[b=1]", "//o[b>1]", "//o[b<=1]", "a[b>1]", "*[number(.)>1]", "a[.>'1']", "a[.>b]", "a[1>.]", "a[.+1>1]", "a[sum(../*)>1]", "a[. div 1 > 0]",
+		// functions whose implementation panics on some argument values
+		"a[substring(., 5) = '']", "a[substring(., 0, -1) = '']", "a[substring(., 2, 99) = '']", "a[matches(., '(')]", "a[matches(., '[')]", "a[round(1.5) = 2]", "a[contains(., ../b)]", "a[contains(., ../*)]", "a[starts-with(., ../*)]",
+		"a[5 mod 0 = 0]", ".[5 mod 0 = 0]", "a[. mod 0 = 0]", "a[floor(.) = 1]", "a[ceiling(b) = 1]", "a[round(.) = 1]", "a[translate(., 'ab', 'a') = '']", "a[replace(., '(', 'x') = '']", "a[string-length(../*) = 1]", "a[normalize-space(../*) = '']",
+		"a[sum(../b) = 1]", "a[number(../*) = 1]", "a[concat(., ../*) = '']", "a[substring-before(., ../*) = '']", "a[reverse(..)]", "a[lang('en')]", "a[name(..) = 'o']", "a[local-name(../*) = 'a']", "a[count(.) = '1']", "a[position() = last()]", "a[last() = 'x']", "a[position() > 'x']",
 		"a[true()]", "a[false()]", "a[b and true()]", "a[not(b)]", "a[position()]", "a[last()][1]", "a[1][1]", "a[b[c]]", "a[.=..]", "//*[.//*]", "a[count(b)]", "a[string()]", "a[1 div 0]", "a[0]", "a[-1]", "a['x']", "a[''])",
 		"", " ", "[", "]", "a[", "a]", "//", "///", "a//", "@", "a/@", "a::b", "child::", "a b", "a,b", "a=", "=a", "and", "or", "()", "(", "a |", "| a", "$a", "a[$b]", "1 2", "a/(b)", "a/(b and c)", "f()", "a:b", "a:*", "*:a", "@a:b",
 		"a[1", "a[1]]", "'unterminated", "a[.='x]", "//*[text()='1' and @k]", ".[a!='0' and b!='z']", "./.", "./..", "../..", "/..", "/.", "a/./b", ".//.",
